@@ -9,7 +9,7 @@ PID = "X_Fs"
 OVERLAY = {"fs/verif_fs_test.go": "fs/verif_fs_test.go"}
 INTERNAL = ("TypeOK",)
 FORMULAS = ["MountedIffInMap", "MountedLayerAlive", "FailedMountLeavesNothing", "NoUnverifiedMountUnlessAllowed", "NoUnverifiedInMap",
-            "UnmountReleasesLayer", "CheckReachesOwnLayer", "DoDoneBalanced", "BackgroundFetchOnlyAfterMountReturns"]
+            "UnmountReleasesLayer", "CheckReachesOwnLayer", "DoDoneBalanced", "BackgroundFetchOnlyAfterMountReturns", "BackgroundFetchStartsIdle"]
 NEGCTL = [("ReleaseOnFail", ["MountedIffInMap", "FailedMountLeavesNothing"]),
           ("EraseOnFail", ["MountedIffInMap", "FailedMountLeavesNothing"]),
           ("VerifyFirst", ["NoUnverifiedInMap", "NoUnverifiedMountUnlessAllowed"]),
@@ -125,7 +125,7 @@ def model_stage(run, thorough):
     for const, expect in NEGCTL:
         run.tlc_negctl("Fs", "Fs_mc_neg.cfg", {const: "FALSE"}, expect, drop=INTERNAL)
     run.tlc_negctl("Fs", "Fs_mc_neg.cfg", {"SkipNeedsAllow": "FALSE", "AllowNoVerif": "FALSE"}, ["NoUnverifiedInMap", "NoUnverifiedMountUnlessAllowed"], drop=INTERNAL)
-    run.tlc_negctl("Fs", "Fs_mc_bg.cfg", {"BgRespectsPrio": "FALSE"}, ["BackgroundFetchOnlyAfterMountReturns"], drop=INTERNAL)
+    run.tlc_negctl("Fs", "Fs_mc_bg.cfg", {"BgRespectsPrio": "FALSE"}, ["BackgroundFetchOnlyAfterMountReturns", "BackgroundFetchStartsIdle"], drop=INTERNAL)
     run.tlc_negctl("Fs", "Fs_mc_samemp.cfg", {}, ["MountedIffInMap", "FailedMountLeavesNothing", "MountedLayerAlive"], drop=INTERNAL)
 
 
@@ -171,7 +171,11 @@ def stages(run, thorough, dev):
         cleanup_mounts(run.scratch)
     if rc != 0:
         m = re.search(r"WARNING: DATA RACE\n(?:.*\n){0,40}", out)
-        run.violation("datarace:fs", "data race reported under the Fs driver", {"log": (m.group(0) if m else out[-6000:])})
+        txt = m.group(0) if m else out[-6000:]
+        tops = re.findall(r"(?:Write|Read|Previous write|Previous read) at .*\n\s+(\S+)", txt)
+        if tops and all(".xfs" in t or "(*xfs" in t for t in tops):
+            raise Inconclusive("data race between two accesses of the DRIVER (not of the code under test):\n" + txt[:3000])
+        run.violation("datarace:fs:" + ",".join(t.split("/")[-1] for t in tops[:2]), "data race reported under the Fs driver", {"log": txt})
     for j in jobs:
         # the Reset events carry the configuration for the monitor
         evs = read_ndjson(j["out"])
